@@ -32,23 +32,22 @@ RULE = ("sev ops = (checker, enabled severities/certainty, value list of 0-4 val
 EXPLANATION = ("Proved in Lean for the models: an error-severity finding of zerodiv / arrayIndex / negativeIndex (one index) / shiftTooManyBits / "
                "integerOverflow is backed by a triggering, non-Impossible value without condition and not from a default argument (Known, "
                "Possible or Inconclusive: that is all the code guarantees), nullPointer / uninitvar / invalidFunctionArg by a Known value; "
-               "as found, shiftNegative (F04a) and accesses with several indexes (F04c) guarantee less (counterexamples proved, repaired "
-               "variants proved, the check reads the variant off the source); the straight-line leak automaton is sound w.r.t. a concrete "
+               "shiftNegative and accesses with several indexes guarantee the same since 4fa5b48 / 43eccce (the bodies as found are kept "
+               "as regression counterexamples; the check reads the shape of the two error functions off the source and fails the "
+               "translation obligation on any other shape); the straight-line leak automaton is sound w.r.t. a concrete "
                "heap semantics for programs of any length unless code follows a return (counterexample, F04b) and exact when no pointer is "
                "copied. The models cover the grading/selection step and straight-line code only: whether a *reported value* is right is "
                "C01; the end-to-end claim is searched on generated UB-free functions (a finding counts when a tried execution executes the "
                "flagged statement; findings in code no tried execution reaches are listed, not counted), so level other. Outside the model: "
                "lifetime checks, uninitialised struct members, container checks, CTU, conditional control flow in the leak automaton, "
                "Lower/Upper bound values in isOutOfBounds, the syntactic preconditions of each checker.")
-THEOREMS = ["Cppcheck.SevDecide.error_implies_definite", "Cppcheck.SevDecide.error_implies_definite_counterexample",
-            "Cppcheck.SevDecide.zerodiv_error_definite", "Cppcheck.SevDecide.nullPointer_error_known",
-            "Cppcheck.SevDecide.arrayIndex_error_definite", "Cppcheck.SevDecide.arrayIndexN_error_partial",
-            "Cppcheck.SevDecide.arrayIndexN_error_counterexample", "Cppcheck.SevDecide.shiftTooManyBits_error_definite",
-            "Cppcheck.SevDecide.integerOverflow_error_definite", "Cppcheck.SevDecide.uninitvar_error_known",
-            "Cppcheck.SevDecide.invalidFunctionArg_error_known", "Cppcheck.SevDecide.shiftNegative_error_conditional_counterexample",
-            "Cppcheck.SevDecide.shiftNegative_error_partial", "Cppcheck.SevDecide.shiftNegative_error_definite_graded",
-            "Cppcheck.SevDecide.zerodiv_trigger_is_ub",
-            "Cppcheck.SevDecide.shift_trigger_is_ub", "Cppcheck.SevDecide.overflow_trigger_is_ub",
+THEOREMS = ["Cppcheck.SevDecide.error_implies_definite", "Cppcheck.SevDecide.zerodiv_error_definite",
+            "Cppcheck.SevDecide.nullPointer_error_known", "Cppcheck.SevDecide.arrayIndexN_error_definite",
+            "Cppcheck.SevDecide.arrayIndex_error_definite", "Cppcheck.SevDecide.arrayIndexN_asFound_counterexample",
+            "Cppcheck.SevDecide.shiftTooManyBits_error_definite", "Cppcheck.SevDecide.integerOverflow_error_definite",
+            "Cppcheck.SevDecide.uninitvar_error_known", "Cppcheck.SevDecide.invalidFunctionArg_error_known",
+            "Cppcheck.SevDecide.shiftNegative_error_definite", "Cppcheck.SevDecide.shiftNegative_asFound_counterexample",
+            "Cppcheck.SevDecide.zerodiv_trigger_is_ub", "Cppcheck.SevDecide.shift_trigger_is_ub", "Cppcheck.SevDecide.overflow_trigger_is_ub",
             "Cppcheck.LeakStraight.leak_reports_sound", "Cppcheck.LeakStraight.leak_reports_sound_counterexample",
             "Cppcheck.LeakStraight.clean_program_no_reports", "Cppcheck.LeakStraight.leak_automaton_exact",
             "Cppcheck.LeakStraight.leak_automaton_exact_counterexample"]
@@ -196,7 +195,7 @@ def gen_value(rng, checker, around):
     return "%s%s,%d,%s" % (kind, vt, iv, fl or "-")
 
 
-def sev_ops(rng, n, valid, variant="00"):
+def sev_ops(rng, n, valid):
     ops = []
     checkers = ["zerodiv", "nullptr", "arrayidx", "arrayidx2", "arrayidx2", "shiftbits", "shiftneg", "intoverflow", "uninit", "invalidarg"]
     for _ in range(n):
@@ -232,7 +231,7 @@ def sev_ops(rng, n, valid, variant="00"):
             param = "%d:%d" % valid
             around = [valid[0] - 1, valid[0], valid[1], valid[1] + 1, valid[1] + 1, 300, -1, 5]
         l1 = [gen_value(rng, c, around) for _ in range(rng.choice([0, 1, 1, 2, 2, 3, 4]))]
-        line = "sev %s %s%s%s %s %s" % (c, opts, cpp, variant, param, " ".join(l1) if l1 else "-")
+        line = "sev %s %s%s %s %s" % (c, opts, cpp, param, " ".join(l1) if l1 else "-")
         if c in ("shiftneg", "arrayidx2"):
             l2 = [gen_value(rng, c, around) for _ in range(rng.choice([0, 1, 1, 2, 3]))]
             line += " / " + (" ".join(l2) if l2 else "-")
@@ -287,9 +286,7 @@ def p_impl_sev(res, ops, impl, valid=(0, 255)):
                     ok = ok and kt[0] == "K"
                 return ok
             if not any(definite(w, pos) for pos, l in enumerate(lists) for w in l):
-                key = {"shiftNegative": "shiftNegative-error-for-conditional-value"}.get(id_)
-                if checker == "arrayidx2" and id_ in ("arrayIndexOutOfBounds", "negativeIndex"):
-                    key = "index-vector-error-graded-by-another-index"
+                key = None
                 res.violation("%s reports %s with severity error although no value of the operand is both out of range and definite (no "
                               "condition, no default argument, not Impossible%s): %s" % (checker, id_, ", Known" if checker in ("nullptr", "invalidarg", "uninit") else "", op),
                               dict(kind="sev", op=op, impl=out, key=key), concrete=True, key=key)
@@ -300,22 +297,20 @@ def run_sev(ctx, res, drv, exe, n):
     if not res.oblig("translate:isdigit-valid-range", valid is not None, "translation",
                      "" if valid else "cfg/std.cfg: <function name=\"isdigit,std::isdigit\"> has no <valid>lo:hi</valid>"):
         return
+    # the model is the repaired code (4fa5b48, 43eccce); the shape as found, or any other shape, leaves the obligation undischarged
     v1, v2 = shiftneg_variant(), indexvec_variant()
-    if not res.oblig("translate:negativeBitwiseShiftError-variant", v1 is not None, "translation",
-                     "" if v1 else "lib/checkother.cpp: CheckOther::negativeBitwiseShiftError has neither the shape as found nor the proposed one"):
-        return
-    if not res.oblig("translate:arrayIndexError-variant", v2 is not None, "translation",
-                     "" if v2 else "lib/checkbufferoverrun.cpp: arrayIndexError / negativeIndexError have neither the shape as found nor the proposed one"):
-        return
-    variant = v1 + v2
-    res.extra["negativeBitwiseShiftError_variant"] = "graded by errorSeverity()" if v1 == "1" else "always Severity::error (F04a)"
-    res.extra["arrayIndexError_variant"] = "every index value graded" if v2 == "1" else "graded by the single value `index` (F04c)"
+    ok1 = res.oblig("translate:negativeBitwiseShiftError-graded-by-errorSeverity", v1 == "1", "translation",
+                    "" if v1 == "1" else "lib/checkother.cpp: CheckOther::negativeBitwiseShiftError does not grade the shift count with "
+                    "value->errorSeverity() (%s)" % ("it reports Severity::error unconditionally again: F04a" if v1 == "0" else "unrecognised shape"))
+    ok2 = res.oblig("translate:arrayIndexError-grades-every-index-value", v2 == "1", "translation",
+                    "" if v2 == "1" else "lib/checkbufferoverrun.cpp: arrayIndexError / negativeIndexError do not grade by every index value "
+                    "(%s)" % ("severity and id come from the single value `index` again: F04c" if v2 == "0" else "unrecognised shape"))
     corpus = load_corpus().get("sev", [])
-    def with_variant(op):
+    def four(op):
         f = op.split()
-        f[2] = f[2][:4] + variant
+        f[2] = f[2][:4]
         return " ".join(f)
-    ops = [with_variant(c["op"].replace("@VALID@", "%d:%d" % valid)) for c in corpus] + sev_ops(ctx.rng, n, valid, variant)
+    ops = [four(c["op"].replace("@VALID@", "%d:%d" % valid)) for c in corpus] + sev_ops(ctx.rng, n, valid)
     rc, impl, err = core.run_lines(exe, [os.path.join(core.REPO, "cfg", "std.cfg")], ops)
     rc2, model, err2 = core.run_lines(drv, [], ops)
     core.correspond(ctx, res, "sev", ops, impl, model, nontrivial=lambda op, out: out not in ("-", "bad-op") and not out.startswith("err"))
